@@ -1539,3 +1539,48 @@ Proof.
   split; [exact (genuine_encs_of toy_hash ex_trie)|].
   split; [repeat constructor|vm_compute; reflexivity].
 Qed.
+
+(* ------------------------------------------------------------------ 2n+1 loop iterations are needed: the comb *)
+
+(* another toy hash (64-bit polynomial, zero padded to 32 bytes); the check below
+   verifies that the proof's node hashes are pairwise distinct *)
+Definition mask64 : N := Eval vm_compute in 2 ^ 64 - 1.
+Definition poly_hash (x : list N) : list N :=
+  let v := fold_left (fun a b => N.land (a * 1000003 + b + 1) mask64) x 0 in
+  let b := be_bytes v in repeat 0 (32 - length b) ++ b.
+
+Fixpoint pack_nibbles (l : list N) : list N :=
+  match l with a :: b :: r => (a * 16 + b) :: pack_nibbles r | _ => [] end.
+Definition comb_key (m : nat) (i : option nat) : list N :=
+  pack_nibbles (match i with
+                | None => repeat 1 m
+                | Some i => repeat 1 i ++ [2] ++ repeat 1 (m - i - 1)
+                end).
+Definition comb_kvs (n : nat) : list (list N * list N) :=
+  (comb_key (2 * n) None, repeat 7 29) ::
+  map (fun i => (comb_key (2 * n) (Some i), repeat (N.of_nat i + 8) 30)) (seq 0 (2 * n)).
+Definition comb_trie (n : nat) : node :=
+  match update_seq (fun _ _ => None) NEmpty (comb_kvs n) with TOk (t, _) => t | TErr _ => NEmpty end.
+
+Fixpoint distinctb (l : list (list N)) : bool :=
+  match l with [] => true | x :: r => negb (existsb (bytes_eqb x) r) && distinctb r end.
+Definition comb_check (n : nat) : bool :=
+  let t := comb_trie n in
+  let key := comb_key (2 * n) None in
+  let k := keybytes_to_hex key in
+  match hash_root poly_hash t, prove poly_hash (fun _ _ => None) t key with
+  | Some r, TOk db =>
+      pwfb t && Nat.eqb (length db) (2 * n + 1) && distinctb (map fst db) &&
+      match verify_f (2 * n + 1) db r k 0 with VOk (Some v) => bytes_eqb v (repeat 7 29) | _ => false end &&
+      match verify_f (2 * n) db r k 0 with VErr VLoop => true | _ => false end &&
+      match verify_proof r key db with VOk (Some v) => bytes_eqb v (repeat 7 29) | _ => false end
+  | _, _ => false
+  end.
+
+(* the comb over an n-byte key: one sibling per nibble depth, values >= 29 bytes so
+   that nothing embeds.  Prove emits exactly 2n+1 nodes (a branch per nibble and
+   the terminator-only leaf, pairwise distinct hashes); the loop of VerifyProof
+   returns the value with bound 2n+1 and runs out ([VLoop]) with bound 2n:
+   the bound of completeness_fuel is tight, for n = 2 and for 32-byte keys (65 nodes) *)
+Example comb_tight : comb_check 2 = true /\ comb_check 32 = true.
+Proof. split; vm_compute; reflexivity. Qed.
